@@ -210,10 +210,71 @@ def fixedC (a b : Patch) : Int := -(cmpInt a.fixed.length b.fixed.length)
 def lenC (a b : Patch) : Int := cmpInt (nupd a) (nupd b)
 def namesC (a b : Patch) : Int := zipCmp (fun x y => cmpStr x.name y.name) a.updates b.updates
 def versC (vc : Str → Str → Int) (a b : Patch) : Int := zipCmp (fun x y => vc x.vto y.vto) a.updates b.updates
+def tieC (a b : Patch) : Int := zipCmp tieUpd a.updates b.updates
+def fixIdC (a b : Patch) : Int := cmpList cmpStr a.fixed b.fixed
+def introIdC (a b : Patch) : Int := cmpList cmpStr a.introduced b.introduced
+
+theorem cmpList_eq_zipCmp {β} (c : β → β → Int) : ∀ (as bs : List β), as.length = bs.length → cmpList c as bs = zipCmp c as bs
+  | [], [], _ => rfl
+  | [], _ :: _, h => by simp at h
+  | _ :: _, [], h => by simp at h
+  | a :: as, b :: bs, h => by
+    simp only [cmpList, zipCmp]
+    rw [cmpList_eq_zipCmp c as bs (by simpa using h)]
+
+theorem cmpList_eq_zero {β} (c : β → β → Int) (hc : ∀ x y, c x y = 0 → x = y) : ∀ (as bs : List β), cmpList c as bs = 0 → as = bs
+  | [], [], _ => rfl
+  | [], _ :: _, h => by simp [cmpList] at h
+  | _ :: _, [], h => by simp [cmpList] at h
+  | a :: as, b :: bs, h => by
+    simp only [cmpList] at h
+    split at h
+    · rename_i hne; exact absurd h hne
+    · rename_i he
+      have e1 : a = b := hc a b (by simpa using he)
+      rw [e1, cmpList_eq_zero c hc as bs h]
+
+theorem cmpStr_eq_zero (x y : Str) (h : cmpStr x y = 0) : x = y := by
+  unfold cmpStr at h
+  cases h1 : ltBytes x y <;> cases h2 : ltBytes y x <;> simp [h1, h2] at h
+  exact ltBytes_strictTotal.total x y h1 h2
+
+/-- the Boolean key of step 6: `false` (direct) before `true` (transitive) -/
+def transC (x y : Upd) : Int := cmpInt (if x.transitive then 1 else 0) (if y.transitive then 1 else 0)
+
+theorem tieUpd_eq_then (x y : Upd) :
+    tieUpd x y = thenCmp (fun x y => cmpStr x.vto y.vto) (thenCmp (fun x y => cmpStr x.vfrom y.vfrom) (thenCmp transC (fun x y => cmpStr x.ty y.ty))) x y := by
+  unfold tieUpd thenCmp transC cmpInt
+  cases hx : x.transitive <;> cases hy : y.transitive <;> simp
+
+theorem tieUpd_cmp3 : Cmp3 (fun _ _ : Upd => True) tieUpd := by
+  have hs : ∀ (f : Upd → Str), Cmp3 (fun _ _ : Upd => True) (fun x y => cmpStr (f x) (f y)) := fun f => cmp3_cmpStr.pullback f
+  have ht : Cmp3 (fun _ _ : Upd => True) transC := cmp3_key (fun u : Upd => if u.transitive then 1 else 0)
+  have w : ∀ {c1 c2 : Upd → Upd → Int}, Cmp3 (fun _ _ => True) c1 → Cmp3 (fun _ _ => True) c2 → Cmp3 (fun _ _ => True) (thenCmp c1 c2) :=
+    fun h1 h2 => h1.then (h2.mono (fun a b h => ⟨trivial, by have := h1.flip a b trivial; omega⟩) (fun _ _ _ => trivial))
+  exact (w (hs (·.vto)) (w (hs (·.vfrom)) (w ht (hs (·.ty))))).congr (fun x y _ => ⟨tieUpd_eq_then x y, tieUpd_eq_then y x⟩)
+
+theorem tieUpd_eq_zero (x y : Upd) (hn : x.name = y.name) (h : tieUpd x y = 0) : x = y := by
+  unfold tieUpd at h
+  split at h
+  · rename_i hne; exact absurd h hne
+  · rename_i h1
+    split at h
+    · rename_i hne; exact absurd h hne
+    · rename_i h2
+      split at h
+      · split at h <;> cases h
+      · rename_i h3
+        have e1 := cmpStr_eq_zero _ _ (by simpa using h1)
+        have e2 := cmpStr_eq_zero _ _ (by simpa using h2)
+        have e3 : x.transitive = y.transitive := by simpa using h3
+        have e4 := cmpStr_eq_zero _ _ h
+        cases x; cases y; simp_all
 
 theorem compare_eq_then (vc : Str → Str → Int) (a b : Patch) :
-    Patch.compare vc a b = thenCmp ratioC (thenCmp fixedC (thenCmp lenC (thenCmp namesC (versC vc)))) a b := by
-  unfold Patch.compare thenCmp ratioC fixedC lenC namesC versC
+    Patch.compare vc a b = thenCmp ratioC (thenCmp fixedC (thenCmp lenC (thenCmp namesC (thenCmp (versC vc)
+      (thenCmp tieC (thenCmp fixIdC introIdC)))))) a b := by
+  unfold Patch.compare thenCmp ratioC fixedC lenC namesC versC tieC fixIdC introIdC
   simp only [ne_eq, Int.neg_eq_zero]
 
 /-- patches that `Patch.Compare` is meant for: at least one update, versions inside `V` -/
@@ -274,8 +335,74 @@ theorem compare_cmp3 (V : Str → Prop) (vc : Str → Str → Int) (hvc : Cmp3 (
     have hv : Cmp3 (fun x y : Upd => V x.vto ∧ V y.vto) (fun x y => vc x.vto y.vto) := hvc.pullback (fun u : Upd => u.vto)
     have := (zipCmp_cmp3 (fun u : Upd => V u.vto) _ hv).pullback (fun a : Patch => a.updates)
     exact this.mono (zsym h4) (fun a b h => ⟨hlen a b h.1.2, h.1.1.1.1.1.2, h.1.1.1.1.2.2⟩)
-  have := h1.then (h2.then (h3.then (h4.then h5)))
+  -- step 6: the tie-breakers
+  have h6 : Cmp3 (fun a b => (((((PatchOK V a ∧ PatchOK V b) ∧ ratioC a b = 0) ∧ fixedC a b = 0) ∧ lenC a b = 0) ∧ namesC a b = 0) ∧ versC vc a b = 0) tieC := by
+    have ht : Cmp3 (fun x y : Upd => True ∧ True) tieUpd := tieUpd_cmp3.mono (fun _ _ h => h) (fun _ _ _ => trivial)
+    have := (zipCmp_cmp3 (fun _ => True) _ ht).pullback (fun a : Patch => a.updates)
+    exact this.mono (zsym h5) (fun a b h => ⟨hlen a b h.1.1.2, fun _ _ => trivial, fun _ _ => trivial⟩)
+  have hfix : ∀ a b : Patch, fixedC a b = 0 → a.fixed.length = b.fixed.length := by
+    intro a b h; unfold fixedC cmpInt at h; split at h <;> (try split at h) <;> omega
+  have hs : Cmp3 (fun x y : Str => True ∧ True) cmpStr := cmp3_cmpStr.mono (fun _ _ h => h) (fun _ _ _ => trivial)
+  have h7 : Cmp3 (fun a b => ((((((PatchOK V a ∧ PatchOK V b) ∧ ratioC a b = 0) ∧ fixedC a b = 0) ∧ lenC a b = 0) ∧ namesC a b = 0) ∧ versC vc a b = 0) ∧ tieC a b = 0) fixIdC := by
+    have := ((zipCmp_cmp3 (fun _ => True) _ hs).pullback (fun a : Patch => a.fixed)).mono (zsym h6)
+      (fun a b h => ⟨hfix a b h.1.1.1.1.2, fun _ _ => trivial, fun _ _ => trivial⟩)
+    exact this.congr (fun a b h => ⟨cmpList_eq_zipCmp _ _ _ (hfix a b h.1.1.1.1.2), cmpList_eq_zipCmp _ _ _ (hfix a b h.1.1.1.1.2).symm⟩)
+  have hintro : ∀ a b : Patch, 0 < nupd a → ratioC a b = 0 → fixedC a b = 0 → lenC a b = 0 → a.introduced.length = b.introduced.length := by
+    intro a b hpos hr hf hl
+    have e1 := hfix a b hf
+    have e2 : nupd a = nupd b := by unfold lenC cmpInt at hl; split at hl <;> (try split at hl) <;> omega
+    have e3 : ratio a * nupd b = ratio b * nupd a := by
+      unfold ratioC cmpInt at hr; split at hr <;> (try split at hr) <;> omega
+    rw [← e2] at e3
+    have e4 : ratio a = ratio b := Int.eq_of_mul_eq_mul_right (by omega) e3
+    unfold ratio at e4; omega
+  have h8 : Cmp3 (fun a b => (((((((PatchOK V a ∧ PatchOK V b) ∧ ratioC a b = 0) ∧ fixedC a b = 0) ∧ lenC a b = 0) ∧ namesC a b = 0) ∧ versC vc a b = 0) ∧ tieC a b = 0) ∧ fixIdC a b = 0) introIdC := by
+    have hl : ∀ a b : Patch, (((((((PatchOK V a ∧ PatchOK V b) ∧ ratioC a b = 0) ∧ fixedC a b = 0) ∧ lenC a b = 0) ∧ namesC a b = 0) ∧ versC vc a b = 0) ∧ tieC a b = 0) ∧ fixIdC a b = 0 →
+        a.introduced.length = b.introduced.length := fun a b h =>
+      hintro a b (nupd_pos_of_ne_nil h.1.1.1.1.1.1.1.1.1) h.1.1.1.1.1.1.2 h.1.1.1.1.1.2 h.1.1.1.1.2
+    have := ((zipCmp_cmp3 (fun _ => True) _ hs).pullback (fun a : Patch => a.introduced)).mono (zsym h7)
+      (fun a b h => ⟨hl a b h, fun _ _ => trivial, fun _ _ => trivial⟩)
+    exact this.congr (fun a b h => ⟨cmpList_eq_zipCmp _ _ _ (hl a b h), cmpList_eq_zipCmp _ _ _ (hl a b h).symm⟩)
+  have := h1.then (h2.then (h3.then (h4.then (h5.then (h6.then (h7.then h8))))))
   exact this.congr (fun a b _ => ⟨compare_eq_then vc a b, compare_eq_then vc b a⟩)
+
+theorem thenCmp_eq_zero {α} (c1 c2 : α → α → Int) (a b : α) (h : thenCmp c1 c2 a b = 0) : c1 a b = 0 ∧ c2 a b = 0 := by
+  unfold thenCmp at h; split at h
+  · rename_i hne; exact absurd h hne
+  · rename_i he; exact ⟨by simpa using he, h⟩
+
+theorem updates_eq_of_zero : ∀ (as bs : List Upd), as.length = bs.length →
+    zipCmp (fun x y => cmpStr x.name y.name) as bs = 0 → zipCmp tieUpd as bs = 0 → as = bs
+  | [], [], _, _, _ => rfl
+  | [], _ :: _, h, _, _ => by simp at h
+  | _ :: _, [], h, _, _ => by simp at h
+  | a :: as, b :: bs, h, hn, ht => by
+    simp only [zipCmp] at hn ht
+    split at hn
+    · rename_i hne; exact absurd hn hne
+    · rename_i hen
+      split at ht
+      · rename_i hne; exact absurd ht hne
+      · rename_i het
+        have e := tieUpd_eq_zero a b (cmpStr_eq_zero _ _ (by simpa using hen)) (by simpa using het)
+        rw [e, updates_eq_of_zero as bs (by simpa using h) hn ht]
+
+/-- **after the repair `Patch.Compare` is total**: it returns 0 only for identical patches (all patches, any version comparison) -/
+theorem compare_eq_zero_imp_eq (vc : Str → Str → Int) (a b : Patch) (h : Patch.compare vc a b = 0) : a = b := by
+  rw [compare_eq_then] at h
+  obtain ⟨_, h⟩ := thenCmp_eq_zero _ _ a b h
+  obtain ⟨_, h⟩ := thenCmp_eq_zero _ _ a b h
+  obtain ⟨hl, h⟩ := thenCmp_eq_zero _ _ a b h
+  obtain ⟨hn, h⟩ := thenCmp_eq_zero _ _ a b h
+  obtain ⟨_, h⟩ := thenCmp_eq_zero _ _ a b h
+  obtain ⟨ht, h⟩ := thenCmp_eq_zero _ _ a b h
+  obtain ⟨hf, hi⟩ := thenCmp_eq_zero _ _ a b h
+  have hlen : a.updates.length = b.updates.length := by
+    unfold lenC cmpInt nupd at hl; split at hl <;> (try split at hl) <;> omega
+  have hu : a.updates = b.updates := updates_eq_of_zero _ _ hlen hn ht
+  have hfx := cmpList_eq_zero cmpStr cmpStr_eq_zero _ _ hf
+  have hin := cmpList_eq_zero cmpStr cmpStr_eq_zero _ _ hi
+  cases a; cases b; simp_all
 
 /-! ### the per-version comparison of step 5 -/
 
